@@ -76,18 +76,6 @@ Proof.
   apply (sl_fold (fun c st => notify_delete B f (snd c) st)). intros a s0. apply IH.
 Qed.
 
-Lemma sl_renamed_call r nm s : same_life s (renamed_call B bstep r nm s).
-Proof. unfold renamed_call. destruct (fr_parent _); [apply sl_bcall; [reflexivity | intros h []] | apply sl_set_panic]. Qed.
-
-Lemma sl_notify_name_change fuel : forall n s, same_life s (notify_name_change B bstep fuel n s).
-Proof.
-  induction fuel as [|f IH]; intros n s; cbn [notify_name_change]; [apply sl_set_oof|]. cbv zeta.
-  eapply same_life_trans.
-  - apply (sl_fold (fun e st => fold_left (fun st' r => renamed_call B bstep r (fst e) st') (snd e) st)).
-    intros e s0. apply (sl_fold (fun r st' => renamed_call B bstep r (fst e) st')). intros r s1. apply sl_renamed_call.
-  - apply (sl_fold (fun c st => notify_name_change B bstep f (snd c) st)). intros a s0. apply IH.
-Qed.
-
 Lemma sl_rwn_none n nm m : forall held s, same_life s (snd (rwn_loop B n nm None m held s)).
 Proof.
   induction m as [|r m IH]; intros held s; cbn [rwn_loop]; [apply same_life_refl|]. cbv zeta.
@@ -768,10 +756,12 @@ Proof. intros s d Inv _. unfold do_stop. cbn [snd]. apply stop_loop_ok; auto. Qe
 (** ---- rename ---- *)
 
 Lemma rename_cb_ok tgt newnm r s d :
-  FInv s d -> 0 < C s r -> 0 < C s tgt ->
+  FInv s d -> 0 < hc s r -> 0 < hc s tgt ->
   FInv (rename_cb B bstep tgt newnm r s) d /\ led [] [] s (rename_cb B bstep tgt newnm r s).
 Proof.
-  intros Inv Hr Ht. unfold rename_cb.
+  intros Inv Hhr Hht. unfold rename_cb.
+  assert (Hr : 0 < C s r) by (pose proof (C_hc s r); lia).
+  assert (Ht : 0 < C s tgt) by (pose proof (C_hc s tgt); lia).
   destruct (fr_parent (gref s r)) as [p|] eqn:EP; [|apply sl_ok; auto; apply sl_set_panic].
   destruct Inv as (I & K & W).
   pose proof (reparent_inv B s d r p tgt I Hr EP Ht) as I1.
@@ -789,12 +779,16 @@ Proof.
   pose proof (sl_add_child (fr_node (gref s1 tgt)) r newnm s1) as SC2.
   set (s2 := add_child B (fr_node (gref s1 tgt)) r newnm s1) in *.
   destruct (sl_ok s1 s2 (p :: d) SC2 F1) as (F2 & L2).
-  pose proof (sl_bc (BRenamed (fr_file (gref s2 r)) (fr_file (gref s2 tgt)) newnm) s2 ltac:(intros h [])) as SC3.
+  assert (L02 : led [] [] s s2) by (eapply led_equiv; [|exact (led_trans _ _ _ _ _ _ _ L1 L2)]; led_arith).
+  assert (Hr2 : 0 < hc s2 r) by (eapply led_hc_pos; [exact L02 | lia | reflexivity]).
+  assert (Ht2 : 0 < hc s2 tgt) by (eapply led_hc_pos; [exact L02 | lia | reflexivity]).
+  pose proof (sl_bc (BRenamed (fr_file (gref s2 r)) (fr_file (gref s2 tgt)) newnm) s2
+                ltac:(intros h [<-|[<-|[]]]; [exact (held_open s2 _ None r F2 Hr2) | exact (held_open s2 _ None tgt F2 Ht2)])) as SC3.
   set (s3 := snd (bcall_ B bstep (BRenamed (fr_file (gref s2 r)) (fr_file (gref s2 tgt)) newnm) s2)) in *.
   destruct (sl_ok s2 s3 (p :: d) SC3 F2) as ((I3 & K3 & W3) & L3).
   destruct (decref_ok B bstep p s3 d I3) as (I4 & _ & Kp4).
   split; [split; [exact I4 | split; [exact (decref_K_ B bstep p s3 d None I3 K3) | exact (decref_U_ B bstep p s3 d None I3 K3 W3)]]|].
-  eapply led_equiv; [|exact (led_trans _ _ _ _ _ _ _ (led_trans _ _ _ _ _ _ _ (led_trans _ _ _ _ _ _ _ L1 L2) L3) (led_keeps _ _ Kp4))]. led_arith.
+  eapply led_equiv; [|exact (led_trans _ _ _ _ _ _ _ (led_trans _ _ _ _ _ _ _ L02 L3) (led_keeps _ _ Kp4))]. led_arith.
 Qed.
 
 Lemma rwn_loop_ok n nm tgt newnm m : forall held s d,
@@ -824,7 +818,7 @@ Proof.
       { split; [intro; auto|]. unfold hc, hold; cbn. split; intros; rewrite !cnt_cons, !cnt_nil; lia. }
       assert (Hr2 : 0 < hc (hold B r s1) r) by (eapply led_hc_pos; [exact L2 | rewrite cnt_cons, ind_same; lia | reflexivity]).
       assert (Ht2 : 0 < hc (hold B r s1) tgt) by (eapply led_hc_pos; [exact L2 | lia | reflexivity]).
-      destruct (rename_cb_ok tgt newnm r (hold B r s1) d I2 ltac:(pose proof (C_hc (hold B r s1) r); lia) ltac:(pose proof (C_hc (hold B r s1) tgt); lia)) as (I3 & L3).
+      destruct (rename_cb_ok tgt newnm r (hold B r s1) d I2 Hr2 Ht2) as (I3 & L3).
       set (s3 := rename_cb B bstep tgt newnm r (hold B r s1)) in *.
       assert (Ht3 : 0 < hc s3 tgt) by (eapply led_hc_pos; [exact L3 | lia | reflexivity]).
       specialize (IH (held ++ [r]) s3 d I3 Ht3). cbv zeta in IH. destruct IH as (I4 & new & E4 & L4).
@@ -844,6 +838,62 @@ Proof.
     rewrite cnt_cons, !cnt_nil in G. lia. }
   destruct (IH _ d I1 H1) as (I2 & L2). split; auto.
   eapply led_equiv; [|exact (led_trans _ _ _ _ _ _ _ L1 L2)]. led_arith.
+Qed.
+
+(** notifyNameChange: the fidRefs it notifies are held meanwhile (so they and their parents are live) *)
+Definition nspec (f : list nat * st -> list nat * st) : Prop :=
+  forall held s d, FInv s d ->
+    FInv (snd (f (held, s))) d /\ exists new, fst (f (held, s)) = held ++ new /\ led new [] s (snd (f (held, s))).
+
+Lemma nspec_fold {A} (f : A -> list nat * st -> list nat * st) (l : list A) :
+  (forall a, nspec (f a)) -> nspec (fun hs => fold_left (fun st a => f a st) l hs).
+Proof.
+  intros H. induction l as [|a l IH]; intros held s d Inv; cbn [fold_left].
+  - split; auto. exists []. rewrite app_nil_r. split; [reflexivity | apply led_refl].
+  - destruct (H a held s d Inv) as (I1 & n1 & E1 & L1). destruct (f a (held, s)) as [h1 s1]. cbn [fst snd] in *. subst h1.
+    destruct (IH (held ++ n1) s1 d I1) as (I2 & n2 & E2 & L2). split; auto.
+    exists (n1 ++ n2). split; [rewrite E2, app_assoc; reflexivity|].
+    eapply led_equiv; [|exact (led_trans _ _ _ _ _ _ _ L1 L2)]. led_arith.
+Qed.
+
+Lemma renamed_call_ok r nm : nspec (renamed_call B bstep r nm).
+Proof.
+  intros held s d Inv. unfold renamed_call, try_incref.
+  destruct (Z.leb_spec (fr_refs (gref s r)) 0) as [Le|Gt].
+  - cbn [fst snd]. split; auto. exists []. rewrite app_nil_r. split; [reflexivity | apply led_refl].
+  - assert (Lr : r < length (s_refs B s)).
+    { destruct (Nat.lt_ge_cases r (length (s_refs B s))); auto. unfold get_ref in Gt. rewrite nth_overflow in Gt by auto. cbn in Gt. lia. }
+    change (with_held B (r :: s_held B (incref B r s)) (incref B r s)) with (hold B r s).
+    assert (I2 : FInv (hold B r s) d).
+    { split; [apply (hold_inv_live B s d r (proj1 Inv) Lr Gt)|]. split; [|apply Inv]. unfold hold. apply K_with_held, K_incref; [apply Inv|].
+      unfold live. apply Z.ltb_lt. exact Gt. }
+    assert (L2 : led [r] [] s (hold B r s)).
+    { split; [intro; auto|]. unfold RefStep.hc, hold; cbn. split; intros; rewrite !cnt_cons, !cnt_nil; lia. }
+    assert (Hr2 : 0 < hc (hold B r s) r) by (eapply led_hc_pos; [exact L2 | rewrite cnt_cons, ind_same; lia | reflexivity]).
+    cbn [fst snd].
+    assert (SC : same_life (hold B r s) (match fr_parent (gref (hold B r s) r) with
+                 | Some p => snd (bcall_ B bstep (BRenamed (fr_file (gref (hold B r s) r)) (fr_file (gref (hold B r s) p)) nm) (hold B r s))
+                 | None => set_panic B (hold B r s) end)).
+    { destruct (fr_parent (gref (hold B r s) r)) as [p|] eqn:EP; [|apply sl_set_panic].
+      apply sl_bcall; [reflexivity|]. intros h [<-|[<-|[]]]; [exact (held_open _ d None r I2 Hr2) | exact (parent_open _ d None r p I2 Hr2 EP)]. }
+    destruct (sl_ok _ _ d SC I2) as (I3 & L3). split; auto. exists [r]. split; [reflexivity|].
+    eapply led_equiv; [|exact (led_trans _ _ _ _ _ _ _ L2 L3)]. led_arith.
+Qed.
+
+Lemma notify_name_change_ok fuel : forall n, nspec (notify_name_change B bstep fuel n).
+Proof.
+  induction fuel as [|f IH]; intros n held s d Inv; cbn [notify_name_change fst snd].
+  - destruct (sl_ok s (set_oof B s) d (sl_set_oof s) Inv) as (I1 & L1). split; auto.
+    exists []. rewrite app_nil_r. split; [reflexivity | exact L1].
+  - cbv zeta.
+    pose proof (nspec_fold (fun e hs => fold_left (fun st' r => renamed_call B bstep r (fst e) st') (snd e) hs) (pn_refs (get_node B s n))
+                  (fun e => nspec_fold (fun r hs => renamed_call B bstep r (fst e) hs) (snd e) (fun r => renamed_call_ok r (fst e)))) as F1.
+    destruct (F1 held s d Inv) as (I1 & n1 & E1 & L1).
+    destruct (fold_left _ (pn_refs (get_node B s n)) (held, s)) as [h1 s1]. cbn [fst snd] in *. subst h1.
+    pose proof (nspec_fold (fun c hs => notify_name_change B bstep f (snd c) hs) (pn_nodes (get_node B s n)) (fun c => IH (snd c))) as F2.
+    destruct (F2 (held ++ n1) s1 d I1) as (I2 & n2 & E2 & L2). split; auto.
+    exists (n1 ++ n2). split; [rewrite E2, app_assoc; reflexivity|].
+    eapply led_equiv; [|exact (led_trans _ _ _ _ _ _ _ L1 L2)]. led_arith.
 Qed.
 
 Lemma remove_with_name_ok n nm tgt newnm s d :
@@ -889,8 +939,13 @@ Proof.
   destruct (sl_ok s2 s3 d SC3 I2) as (I3 & L3).
   assert (L03 : led [] [] s s3) by (eapply led_equiv; [|exact (led_trans _ _ _ _ _ _ _ L02 L3)]; led_arith).
   destruct (s_panic B s3); [auto|].
-  destruct (sl_ok s3 _ d (sl_notify_name_change (node_fuel B s3) cn s3) I3) as (I4 & L4). split; auto.
-  eapply led_equiv; [|exact (led_trans _ _ _ _ _ _ _ L03 L4)]. led_arith.
+  destruct (notify_name_change_ok (node_fuel B s3) cn [] s3 d I3) as (I4 & new & E4 & L4).
+  destruct (notify_name_change B bstep (node_fuel B s3) cn ([], s3)) as [held s4]. cbn [fst snd app] in *. subst held.
+  assert (L04 : led new [] s s4) by (eapply led_equiv; [|exact (led_trans _ _ _ _ _ _ _ L03 L4)]; led_arith).
+  assert (H4 : forall q, cnt new q <= hc s4 q).
+  { intros q. pose proof (led_ge _ _ _ _ q L04) as G. rewrite cnt_nil in G. lia. }
+  destruct (release_all_ok new s4 d I4 H4) as (I5 & L5). split; auto.
+  eapply led_equiv; [|exact (led_trans _ _ _ _ _ _ _ L04 L5)]. led_arith.
 Qed.
 
 Lemma ok_rename c fid dfid nm : ok [] (fun s => snd (do_rename B bstep c fid dfid nm s)).
